@@ -71,7 +71,7 @@ Theorem C03_for_passes_refine_the_specification f init cond post body sc :
   exists K, forall fm, (K <= fm)%nat -> forall ln out,
     Rl (for_loop cx0 fm ln (for_init init) (for_cond cond) (for_post post) (map cnode body) sc out) out
        (for_passes model_call_spec f cond post body sc).
-Proof. exact (proj2 (proj2 (proj2 (proj2 (refinement f)))) init cond post body sc). Qed.
+Proof. exact (proj1 (proj2 (proj2 (proj2 (proj2 (refinement f))))) init cond post body sc). Qed.
 Print Assumptions C03_for_passes_refine_the_specification.
 
 Theorem C03_loop_statements_refine_the_specification fs sc n :
